@@ -60,7 +60,9 @@ const READER_ANSWERS = {
   deepJson: { kind: 'repeat', prefix: '', unit: '[', times: 100000, suffix: '' }
 }
 
-const FILE_NAMES = ['/p/app.js', '', '/', 'a.js', 'd/a.js', '/abs/d/a.js', '..', 'd/', '.', '//', 'x'.repeat(4096) + '.js', 'a\u0000b.js', 'ñ/á €.js', 'C:\\p\\a.js', ' ', 'a.js/']
+const FILE_NAMES = ['/p/app.js', '', '/', 'a.js', 'd/a.js', '/abs/d/a.js', '..', 'd/', '.', '//', 'x'.repeat(4096) + '.js', 'a\u0000b.js', 'ñ/á €.js', 'C:\\p\\a.js', ' ', 'a.js/',
+  // last components that start with, end with or consist of multi-byte characters (slicing by characters vs bytes)
+  'ñ.js', '/app/ñ.js', '日本.js', '/p/añ.js', '/p/a.ñ', '/p/😀.js', 'C:\\app\\ñ.js', '/ñ/ü', 'ü']
 const REFS = {
   none: '',
   inlineValid: '\n//# sourceMappingURL=data:application/json;base64,' + b64(VALID_MAP),
